@@ -21,6 +21,7 @@ import (
 // ---------------------------------------------------------------------------
 
 type c10Obs struct {
+	WantRows int // when set: the number of rows the union filter must select (no row is ever deleted)
 	Rows     int
 	Absent   int
 	Bad      string
@@ -56,6 +57,8 @@ const (
 	c10Range
 	c10FilteredIndex
 	c10FilteredTyped
+	c10QueryAtBatch // several txn.QueryAt point reads inside ONE transaction
+	c10UnionFilter  // With(all).WithUnion(odd, even): two indexes of one column that partition the rows
 	c10Styles
 	// point reads by key (keyed collections only): QueryKey and the existing-key branch of UpsertKey
 	c10QueryKey    = c10Styles
@@ -63,7 +66,7 @@ const (
 	c10StylesKeyed = c10Styles + 2
 )
 
-var c10StyleNames = [...]string{"QueryAt", "Range", "With(index).Range", "WithInt.Range", "QueryKey", "UpsertKey(existing key)"}
+var c10StyleNames = [...]string{"QueryAt", "Range", "With(index).Range", "WithInt.Range", "txn.QueryAt x N in one transaction", "With(all).WithUnion(odd,even).Range", "QueryKey", "UpsertKey(existing key)"}
 
 func c10Key(off uint32) string { return fmt.Sprintf("r%d", off) }
 
@@ -88,9 +91,34 @@ func c10Read(c *column.Collection, style int, rows []uint32, obs *c10Obs) {
 				c.UpsertKey(c10Key(off), cb)
 			}
 		}
+	case c10QueryAtBatch:
+		c.Query(func(txn *column.Txn) error {
+			for round := 0; round < 2; round++ {
+				for _, off := range rows {
+					off := off
+					txn.QueryAt(off, func(r column.Row) error {
+						a, okA := r.Int("a")
+						b, okB := r.Int("b")
+						cc, okC := r.Uint64("c")
+						c10CheckRow(off, a, okA, b, okB, cc, okC, obs)
+						return nil
+					})
+				}
+			}
+			return nil
+		})
 	default:
 		c.Query(func(txn *column.Txn) error {
 			switch style {
+			case c10UnionFilter:
+				// every row that holds a is in exactly one of the two indexes at every committed state:
+				// the union selects all of them; a row that is momentarily in neither is a mixture
+				txn.With("all").WithUnion("odd", "even")
+				if obs.WantRows > 0 {
+					if n := txn.Count(); n != obs.WantRows && obs.Bad == "" {
+						obs.Bad = fmt.Sprintf("With(all).WithUnion(odd,even) selects %d rows; the two indexes partition the %d rows at every committed state", n, obs.WantRows)
+					}
+				}
 			case c10FilteredIndex:
 				txn.With("all")
 			case c10FilteredTyped:
@@ -120,6 +148,8 @@ func c10CollectionK(blocks int, keyed bool) (*column.Collection, []uint32) {
 	c.CreateColumn("c", column.ForUint64())
 	c.CreateColumn("live", column.ForInt())
 	c.CreateIndex("all", "live", func(r column.Reader) bool { return r.Int() == 1 })
+	c.CreateIndex("odd", "a", func(r column.Reader) bool { return r.Int()%2 != 0 })
+	c.CreateIndex("even", "a", func(r column.Reader) bool { return r.Int()%2 == 0 })
 	n := (blocks-1)*16384 + 6
 	var offs []uint32
 	c.Query(func(txn *column.Txn) error {
@@ -272,7 +302,7 @@ func runC10Latched(blocks int, ops []c10WriterOp, parkAt int, styles []int, same
 		r := &rd{style: st, obs: &c10Obs{}, done: make(chan struct{})}
 		readers = append(readers, r)
 		target := rows
-		if st == c10QueryAt || st >= c10Styles {
+		if st == c10QueryAt || st == c10QueryAtBatch || st >= c10Styles {
 			target = nil
 			for _, off := range rows {
 				if (off>>14 == heldBlock) == sameBlock {
@@ -495,7 +525,7 @@ func TestC10Parallel(t *testing.T) {
 			go func(rd int) {
 				defer wg.Done()
 				defer crashed("a " + c10StyleNames[rd%nstyles] + " reader")
-				obs := &c10Obs{Versions: map[uint32]map[int]bool{}}
+				obs := &c10Obs{Versions: map[uint32]map[int]bool{}, WantRows: len(rows)}
 				for {
 					select {
 					case <-stop:
